@@ -104,8 +104,12 @@ def find_lexicons(
     cur = connect().cursor()
     found = False
     for specifier in lexicon.split():
-        # a bare id selects only the most recently added lexicon with that id
-        limit = '' if '*' in lexicon else 'ORDER BY rowid DESC LIMIT 1'
+        if ':' not in specifier and not any(c in specifier for c in '*?['):
+            # a bare id selects only the most recently added lexicon with that id
+            limit = 'ORDER BY rowid DESC LIMIT 1'
+        else:
+            # id:version, star and other glob patterns select every match
+            limit = ''
         if ':' not in specifier:
             specifier += ':*'
         query = f'''
